@@ -45,8 +45,16 @@ func check(run *ev.Run, c encx.Cfg, enc zapcore.Encoder, e encx.Ent, p encx.Plac
 		sep = "\t"
 	}
 	cols := c.ConsoleColumns(e)
-	if e.Message == "" && c.MessageKey != "" && len(cols) == 1 {
-		return // the line's only column is empty: whether a separator precedes the fields is not determined by the statement
+	// A line that starts with a column of empty text which is directly followed by the message
+	// or by the field object (not by another metadata column): whether a separator follows that
+	// empty text is not determined by the statement; the encoder starts the line at the next
+	// part. (Between two metadata columns the separator is determined, also after an empty one.)
+	nMeta := len(cols)
+	if c.MessageKey != "" {
+		nMeta--
+	}
+	for len(cols) > 0 && cols[0] == "" && nMeta <= 1 {
+		cols, nMeta = cols[1:], 0
 	}
 	prefix := strings.Join(cols, sep)
 	line := string(out)
@@ -306,7 +314,7 @@ func main() {
 		merge(local)
 	})
 	run.Assume = []string{
-		"configuration product as in C01 (12320 key/sub-encoder combinations incl. nil and no-op) x entry variants x separators {default, |, space, ::, multi-byte} x line endings; messages may be empty (the message column is present whenever its key is set) except where it would be the line's only column; function names are non-empty (whether an empty function name is 'a value' is not determined)",
+		"configuration product as in C01 (13440 key/sub-encoder combinations incl. nil and no-op) x entry variants x separators {default, |, space, ::, multi-byte} x line endings; messages may be empty (the message column is present whenever its key is set); when the line STARTS with a column of empty text (an empty message, or the time under an empty time layout) that is directly followed by the message or the field object, the separator after that empty text is not determined by the statement and the encoder's choice (none) is accepted - between metadata columns it is determined; function names are non-empty (whether an empty function name is 'a value' is not determined)",
 		"a nil or no-op sub-encoder yields no column; a nil name encoder falls back to the full name (documented)",
 		"sequences of <= max_tree_nodes reflected values (encodable / unencodable / failing json.Marshaler / array that carries on after unencodable elements) under zap's default reflection encoder and under a user-supplied streaming NewReflectedEncoder that fails after partial output",
 		"one string of every length up to the stated sweep maximum, with one special unit (quote, newline, invalid byte, two-byte rune) at the start / middle / end, as message, logger name and field value",
